@@ -241,7 +241,11 @@ class Runner:
         src = ScriptedUniform(s)
         old_random = pp.random
         pp.random = src
-        raw_obstruction = r.obstruction
+        # 'foreign' detector: the boxes are registered with a SECOND planner whose obstruction test is handed in as the
+        # caller's collision callback, the planner under test has none of its own - a growth loop that consults its own
+        # test instead of the supplied one then links nodes straight through the boxes
+        rb = pp.RRTStar(tm(list(START))) if cfg.get("foreign") else r
+        raw_obstruction = rb.obstruction
         hit = False
         raised = None
         path = None
@@ -254,9 +258,9 @@ class Runner:
                         src.phase = "sample"
                     else:
                         for lo, hi in LAYOUTS[cfg["layout"]]:
-                            r.addObstruction([lo[i] + OFF[i] for i in range(3)], [hi[i] + OFF[i] for i in range(3)])
+                            rb.addObstruction([lo[i] + OFF[i] for i in range(3)], [hi[i] + OFF[i] for i in range(3)])
                     boxes_key = tuple(tuple(float(x) for x in np.asarray(o[0].gTAA()).reshape(6)[:3]) +
-                                      tuple(float(x) for x in np.asarray(o[1].gTAA()).reshape(6)[:3]) for o in r.obstructions)
+                                      tuple(float(x) for x in np.asarray(o[1].gTAA()).reshape(6)[:3]) for o in rb.obstructions)
                     raw_distance, raw_place = r.distance, r.r6_tree_graph.place
 
                     def dist(a, b):
@@ -411,7 +415,7 @@ def mk(part, layout, dmode, nnl, budget, seed, **kw):
     cfg.update(kw)
     tag = "spine" if kw.get("spine") else (kw["active"] if part == "b" else "menu")
     cfg["name"] = "%s/%s/%s/d%d/k%d/n%d%s/h+%d/%s" % (part, tag, layout, dmode, nnl, budget,
-                                                   "".join("+%d" % m for m in kw.get("regrow", ())) + ("~" if kw.get("switch_dmode") else ""), kw.get("slack", 3),
+                                                   "".join("+%d" % m for m in kw.get("regrow", ())) + ("~" if kw.get("switch_dmode") else "") + ("/foreign" if kw.get("foreign") else ""), kw.get("slack", 3),
                                                    "all" if kw.get("bound") is None else "dev%d" % kw["bound"])
     return cfg
 
@@ -433,6 +437,9 @@ def plan(tier, seed):
         out.append((mk("a", l, d, k, 1, seed, seeded=True, bound=None), 1))
     for l, d, k in cross:
         out.append((mk("a", l, d, k, 2, seed, seeded=True, bound=None, slack=1), 1))
+    # the caller's collision detector is NOT the planner's own (boxes known to the callback only)
+    for l, d, k in [("two", 0, 20), ("one", 1, 2), ("two", 1, 1)]:
+        out.append((mk("a", l, d, k, 2, seed, bound=None, slack=1, foreign=True), 3))
     # histories: the same planner grown again with a smaller budget and queried again (tree deeper than the current budget)
     for l, d, k in (cross if thorough else cover):
         out.append((mk("a", l, d, k, 2, seed, bound=None, slack=1, regrow=(1,)), 3))
